@@ -190,6 +190,12 @@ def private_template_dir() -> Any:
         return None
     import tempfile
 
+    old = getattr(mod.ZorgTemplateManager, "tmp_dir", None)
+    fin = getattr(old, "_finalizer", None)
+    if fin is not None:
+        # the inherited object belongs to the process we were forked from: dropping our copy
+        # of it must not delete that process's directory
+        fin.detach()
     td = tempfile.TemporaryDirectory(prefix=f"tmpl-{os.getpid()}-", dir=str(scratch_root()))
     mod.ZorgTemplateManager.tmp_dir = td
     return td
